@@ -259,7 +259,9 @@ func runC13(c *Ctx, phase string) {
 		c.Floor("fn_pairs_overlapped", 9)
 		c.Floor("shared_slices_used_concurrently", int64(len(w.lists)))
 		c.Floor("immutability_checks", int64(len(w.calls)))
-		c.Floor("silent_children", int64(1+c.Pick(6, 40)+4))
+		c.Floor("silent_children", int64(1+c.Pick(6, 40)+8+4))
+		c.Floor("reuse_cases", int64(c.Pick(4000, 40000)))
+		c.Floor("churn_results_compared", int64(c.Pick(12000, 60000)))
 		r0 := make([]string, len(w.calls))
 		for i, cl := range w.calls {
 			c.begin(uint32(cl.Fn), "c13 call #"+strconv.Itoa(i))
@@ -311,6 +313,8 @@ func runC13(c *Ctx, phase string) {
 				c.c13CheckMutation(w, fmt.Sprintf("by call #%d %v", i, w.describe(cl)))
 			}
 		}
+	case "reuse":
+		runC13Reuse(c, w)
 	case "conc":
 		runC13Conc(c, w)
 	case "strace":
@@ -325,6 +329,157 @@ func runC13(c *Ctx, phase string) {
 		marker("VERIF-END")
 		c.Count("strace_calls", int64(len(w.calls)))
 	}
+}
+
+// satStr / valStr: canonical result strings of direct calls (same format as exec).
+func satStr(e string, l []string) (res string) {
+	defer func() {
+		if p := recover(); p != nil {
+			res = "PANIC " + panicText(p)
+		}
+	}()
+	ok, err := spdxexp.Satisfies(e, l)
+	if err != nil {
+		return fmt.Sprintf("S %v ERR %s", ok, err.Error())
+	}
+	return fmt.Sprintf("S %v", ok)
+}
+
+func valStr(l []string) (res string) {
+	defer func() {
+		if p := recover(); p != nil {
+			res = "PANIC " + panicText(p)
+		}
+	}()
+	ok, inv := spdxexp.ValidateLicenses(l)
+	return fmt.Sprintf("V %v %q", ok, inv)
+}
+
+func extStr(e string) (res string) {
+	defer func() {
+		if p := recover(); p != nil {
+			res = "PANIC " + panicText(p)
+		}
+	}()
+	l, err := spdxexp.ExtractLicenses(e)
+	if err != nil {
+		return fmt.Sprintf("E %q nil=%v ERR %s", l, l == nil, err.Error())
+	}
+	return fmt.Sprintf("E %q", l)
+}
+
+// runC13Reuse: results must depend on the CONTENTS of the arguments only. (1) the caller reuses one backing array for
+// successive calls with different contents (in-place overwrite, refill of buf[:0], sub-slices at other offsets) and every
+// result must equal the result for a fresh slice with the same contents; (2) many thousands of distinct expressions are
+// pushed through once, then again in reverse order (a bounded cache that misbehaves after eviction shows as a difference).
+func runC13Reuse(c *Ctx, w *c13Workload) {
+	u := c.U
+	nCases := c.Pick(4000, 40000)
+	differs := func(kind, what, got, want string, cas any) {
+		c.Violation("reuse:"+kind, "C13.reuse", C13Case{Kind: "reuse-" + kind, Got: got, Want: want, Order: what, Call: map[string]any{"case": cas}},
+			"%s: the call on the reused slice returned %q, the same contents in a fresh slice give %q", what, got, want)
+	}
+	for i := 0; i < nCases; i++ {
+		if !c.Mine(i) {
+			continue
+		}
+		r := gen.NewRand(c.Seed, 0xC135, uint64(i))
+		n := 1 + r.Intn(12)
+		if r.Chance(1, 2) {
+			n = 8 + r.Intn(60)
+		}
+		mkContents := func(m int) []string {
+			l := make([]string, m)
+			for j := range l {
+				switch {
+				case r.Chance(1, 40):
+					l[j] = "NOT-A-LICENSE"
+				case r.Chance(1, 40):
+					l[j] = "MIT AND ISC"
+				case r.Chance(1, 3):
+					l[j] = r.Pick(u.InTable)
+				default:
+					l[j] = u.RandomTerm(r).Text()
+				}
+			}
+			return l
+		}
+		e := w.exprs[r.Intn(len(w.exprs))]
+		if r.Chance(1, 2) {
+			e = r.Pick(u.InTable)
+			if r.Chance(1, 2) {
+				e += " OR " + r.Pick(u.Active)
+			}
+		}
+		buf := make([]string, n, n+r.Intn(n+2))
+		a := mkContents(n)
+		copy(buf, a)
+		c.evals += 2
+		if got, want := satStr(e, buf), satStr(e, append([]string{}, a...)); got != want {
+			differs("first-use", "first call on a new buffer", got, want, map[string]any{"expr": ev.QS(e), "list": ev.QSs(a)})
+		}
+		// in-place overwrite with other contents of the same length
+		b := mkContents(n)
+		if r.Chance(1, 2) { // change a single entry only
+			b = append([]string{}, a...)
+			b[r.Intn(n)] = r.Pick([]string{"NOT-A-LICENSE", "MIT", r.Pick(u.InTable) + "+", "LicenseRef-other"})
+		}
+		copy(buf, b)
+		c.evals += 2
+		if got, want := satStr(e, buf), satStr(e, append([]string{}, b...)); got != want {
+			differs("overwrite", fmt.Sprintf("Satisfies(%q, buf) after buf (len %d) was overwritten in place", e, n), got, want, map[string]any{"expr": ev.QS(e), "before": ev.QSs(a), "after": ev.QSs(b)})
+		}
+		c.evals += 2
+		if got, want := valStr(buf), valStr(append([]string{}, b...)); got != want {
+			differs("overwrite-validate", "ValidateLicenses(buf) after an in-place overwrite", got, want, map[string]any{"after": ev.QSs(b)})
+		}
+		// refill buf[:0] with another number of entries
+		m := 1 + r.Intn(cap(buf))
+		d := mkContents(m)
+		buf2 := append(buf[:0], d...)
+		c.evals += 2
+		if got, want := satStr(e, buf2), satStr(e, append([]string{}, d...)); got != want {
+			differs("refill", fmt.Sprintf("Satisfies(%q, buf[:0] refilled with %d entries)", e, m), got, want, map[string]any{"expr": ev.QS(e), "before": ev.QSs(b), "after": ev.QSs(d)})
+		}
+		// sub-slices of one backing array at different offsets
+		if m >= 3 {
+			c.evals += 4
+			if got, want := satStr(e, buf2[1:]), satStr(e, append([]string{}, d[1:]...)); got != want {
+				differs("subslice", "Satisfies on buf[1:] of a backing array used before", got, want, map[string]any{"expr": ev.QS(e), "list": ev.QSs(d[1:])})
+			}
+			if got, want := satStr(e, buf2[:m-1]), satStr(e, append([]string{}, d[:m-1]...)); got != want {
+				differs("subslice", "Satisfies on buf[:n-1] of a backing array used before", got, want, map[string]any{"expr": ev.QS(e), "list": ev.QSs(d[:m-1])})
+			}
+		}
+		c.Inc("reuse_cases")
+		c.Distinct(gen.HashStr("reuse", strconv.Itoa(i)))
+	}
+	// churn: many distinct inputs, then the same again in reverse (one child: the point is one process seeing them all)
+	if c.Shard != 0 {
+		return
+	}
+	nChurn := c.Pick(12000, 60000)
+	exprs := make([]string, nChurn)
+	first := make([]string, nChurn)
+	for i := range exprs {
+		tc := genRandomTree(c, "C13churn", i, 32)
+		exprs[i] = string(tc.Text)
+		if i%3 == 0 {
+			exprs[i] = c.U.RandomTerm(gen.NewRand(c.Seed, 0xC136, uint64(i))).Text() + fmt.Sprintf(" OR LicenseRef-churn%d", i)
+		}
+		first[i] = extStr(exprs[i]) + " | " + satStr(exprs[i], w.lists[3])
+		c.evals += 2
+	}
+	for i := nChurn - 1; i >= 0; i-- {
+		c.evals += 2
+		if got := extStr(exprs[i]) + " | " + satStr(exprs[i], w.lists[3]); got != first[i] {
+			c.Violation("churn:differs", "C13.reuse", C13Case{Kind: "churn", Index: i, Want: first[i], Got: got, Call: map[string]any{"expr": ev.QS(exprs[i])}},
+				"after %d other distinct inputs %q gives %q, the first time it gave %q", nChurn, exprs[i], got, first[i])
+			break
+		}
+		c.Inc("churn_results_compared")
+	}
+	c.c13CheckMutation(w, "during the reuse/churn phase")
 }
 
 var markerFd = -1
